@@ -118,6 +118,8 @@ pub fn run(ctx: &Ctx) -> i32 {
         },
         Part { name: "ES-F macro shapes", family: gen::es_f(ctx.tier.pick(2, 3)), cfgs: gen::cfgs(&[ALL_MODES, 1, common::NO_ASCII, 0], &[d], &both, &both) },
         Part { name: "ES-F2 macro token sequences", family: gen::es_f_tokens(ctx.tier.pick(4, 5)), cfgs: gen::cfgs(&[ALL_MODES, common::NO_ASCII], &[d, ListMask(0), sq(10, 10)], &both, &both) },
+        Part { name: "ES-N islands between dense runs", family: gen::es_n(ctx.tier.pick(8, 12)), cfgs: gen::cfgs(&mq, &[d, a], &on, &off) },
+        Part { name: "ES-M multi-run inputs x small single lists x restricted mode sets", family: gen::es_i(ctx.tier.pick(14, 24), ctx.tier.pick(4, 6)), cfgs: gen::cfgs(&[common::NO_ASCII, 0x02, 0x04, 0x08, 0x10, 0x20], &[sq(12, 12), sq(14, 14), sq(16, 16), sq(18, 18), sq(8, 32)], &on, &off) },
         Part { name: "ES-I multi-run inputs", family: gen::es_i(ctx.tier.pick(14, 24), ctx.tier.pick(5, 7)), cfgs: gen::cfgs(&[ALL_MODES, common::NO_ASCII, 0x12, 0x14, 0x18, 0x06, 0x30], &[d], &on, &off) },
     ];
     let _ = Flavor::Totality;
